@@ -174,6 +174,18 @@ func C11(run *mon.Run) {
 			if !c11Expect(a.c, q, digest, libSig) {
 				run.Violate("C11:sign-output-rejected-by-reference:"+a.n, fmt.Sprintf("signature returned by Sign does not satisfy the ECDSA equation (%s)", ctx), rep(libSig, "sign"))
 			}
+			// the FIRST verifications under this key object: the valid signature, mutations of it and the
+			// valid signature again, all read into one buffer that the caller overwrites between calls
+			{
+				twin := ecSigBytes(new(big.Int).SetBytes(libSig[:32]), new(big.Int).Sub(a.c.N, new(big.Int).SetBytes(libSig[32:])))
+				bc := []byteCand{{twin, "twin"}, {flipBit(libSig, 5), "bitflip"}, {flipBit(libSig, 300), "bitflip"}, {libSig[:63], "length"}, {make([]byte, 64), "zeros"}, {append(append([]byte{}, libSig[32:]...), libSig[:32]...), "swap"}, {flipBit(libSig, 511), "bitflip"}, {derSig(libSig), "der"}}
+				n := reusedBufferPass(libSig, bc, func(sg []byte) (bool, error) { return pk.Verify(sg, msg, h) },
+					func(b []byte) bool { return c11Expect(a.c, q, digest, b) },
+					func(kind, what string, b []byte) {
+						run.Violate("C11:reused-buffer:"+kind, fmt.Sprintf("ECDSA Verify, candidate kind %s, %s (%s)", kind, what, ctx), rep(b, kind))
+					})
+				run.Eval(n)
+			}
 			// arguments sharing memory with other caller data
 			{
 				ms := withSpare(msg)
